@@ -656,6 +656,31 @@ func (x *Exec) libCall(s *State, site ssa.Instruction, fn *ssa.Function, name st
 		s.heap[o.id] = &ChanStore{Cap: Int(1), Closed: TFalse, SentCnt: Int(0), RecvCnt: Int(0), Held: Int(0), Sent: Str("")}
 		k(s, &ChanV{Nil: TFalse, Obj: o, Elem: under(fn.Signature.Results().At(0).Type()).(*types.Chan).Elem()})
 		return true
+	case "time.NewTicker", "time.NewTimer", "time.Tick":
+		// NewTicker / Tick panic on a non-positive duration; the result is a
+		// non-nil timer whose channel field C is a channel nothing else closes
+		x.used(name + ": non-nil result; NewTicker / Tick panic unless the duration is positive")
+		if name != "time.NewTimer" {
+			x.check(s, "panic", site, Gt(T(0), Int(0)), name+": non-positive interval panics")
+		}
+		var facts []*Term
+		r := x.E.freshVal(fn.Signature.Results().At(0).Type(), x.siteTag(site)+".timer", &facts)
+		for _, f := range facts {
+			s.assume(f)
+		}
+		switch p := r.(type) {
+		case *PtrV:
+			s.assume(Not(p.Nil))
+			if sv, ok := x.load(s, p).(*StructV); ok && len(sv.F) > 0 {
+				if cv, ok := sv.F[0].(*ChanV); ok {
+					s.assume(Not(cv.Nil))
+				}
+			}
+		case *ChanV:
+			s.assume(Not(p.Nil))
+		}
+		k(s, r)
+		return true
 	case "time.Now":
 		x.used(name)
 		var facts []*Term
